@@ -228,7 +228,9 @@ func (s *ssoSend) do(e *env.Env) (*env.Call, *spsim.RedirectMsg) {
 			kv = append(kv, "SAMLEncoding", s.Encoding)
 		}
 		kv = append(kv, s.Extra...)
-		return e.Do(env.Req{Method: "POST", Path: path, Body: spsim.FormBody(kv...), Host: s.Host, Headers: s.hdr}), nil
+		body := spsim.FormBody(kv...)
+		// a form arrives in one piece or in pieces (decided by its length, so that a case stays reproducible)
+		return e.Do(env.Req{Method: "POST", Path: path, Body: body, Host: s.Host, Headers: s.hdr, Chunk: []int{0, 1460, 97}[len(body)%3]}), nil
 	}
 	m := &spsim.RedirectMsg{Param: "SAMLRequest", Value: spsim.DeflateB64(s.XML), RelayState: s.Relay, HasRelay: s.HasRelay, Pct: s.Pct, Encoding: s.Encoding}
 	if s.rawSAMLRequest != "" || s.forceRaw {
